@@ -1,4 +1,5 @@
 import Momo.Proof.ArrSegSqrt
+import Momo.Proof.TrEqMisc
 /-!
 # C05 — Array-like containers equal the abstract sequence, even with aliased/empty args
 
@@ -221,5 +222,20 @@ def exSeg : Seg.SCfg := { lay := { sqrt := true, L := 1 } }
 example : (Seg.run exSeg Seg.SState.init exOps).1.cells = [.live 8, .live 2, .live 2, .live 2, .live 2, .live 2] := by
   decide
 example : (Seg.run exSeg (Seg.reserveOp exSeg Seg.SState.init 8).1 exOps).2 = [] := by decide
+
+/-! ### The code itself, not only the hand-written model (T1b)
+
+`Momo.Tr.*` are Lean definitions regenerated on every check by tools/translate.py from the *function bodies* in the
+current headers (C++ integer semantics explicit: wrap-around of `size_t`, promotion and truncation of the byte fields,
+the `while` loop). The theorems below are about those generated definitions. -/
+/-- `ArraySettings::GrowCapacity` as translated from the current header is the model's growth rule (capacities
+below 2^62 items: nothing wraps), hence never returns less than the requested minimum. -/
+theorem C05_growCapacity_translated (g : Bool) (capacity minNew : Nat) (reserve linear : Bool) (hc : capacity < 2 ^ 62) :
+    Tr.arr_GrowCapacity g capacity minNew reserve linear = growCapacity g capacity minNew reserve linear ∧
+    minNew ≤ Tr.arr_GrowCapacity g capacity minNew reserve linear := by
+  rw [TrEq.tr_growCapacity g capacity minNew reserve linear hc]
+  exact ⟨rfl, growCapacity_ge g capacity minNew reserve linear⟩
+
+example : Tr.arr_GrowCapacity true 200 201 false false = 292 := by decide
 
 end Momo.Arr
